@@ -114,6 +114,12 @@ def _restrict_checks(ctx, R, rel, cn, mass):
     ok = rs is not None and 'error' not in rs and rs['rows'] == {'i1-1'} and rs['vec'] == {tmpu} and rs['lo'] == Affine(0) and rs['hi'] == Affine(-1, {MF: 1}) and rs['signs'] == {1} and rs['ops'].count('=') <= 1
     ok = ok and all(c.loops and repr(c.loops[0]) == f'i1=1..{MG}' for c in rs['contribs'])
     R.check(ok, 'restrict :: G.u[n] = sum over the FULL row n of Rcoll times the restricted fine values', w, f'columns 0..{MF}-1, row n-1, vector index = column', rs if not rs or 'error' in rs else {k: str(v) for k, v in rs.items() if k != 'contribs'})
+    # .. and nothing else defines a coarse node value: no second, unconditional or conditional, way of filling G.u[n]
+    if rs and 'contribs' in rs:
+        zero_init = re.compile(rf'{re.escape(G)}\.prob\.(dtype_u\({re.escape(G)}\.prob\.init(, val=0(\.0)?)?\)|u_init)')
+        others = [c.describe()[:140] for c in C if re.fullmatch(rf'{re.escape(G)}\.u\[(?!0\])[^\]]+\]', c.target) and c not in rs['contribs'] and not (c.op == '=' and zero_init.fullmatch(c.rhs or '') and not [g for g in c.guards if g != f'{F}.status.unlocked'])]
+        cond = [c.describe()[:140] for c in rs['contribs'] if [g for g in c.guards if g != f'{F}.status.unlocked']]
+        R.check(not others and not cond, 'restrict :: the Rcoll row sum is the ONLY definition of the coarse node values and it is unconditional', w, 'no other store into G.u[n], no extra guard', {'other stores': others, 'guarded row sums': cond})
     # (d) coarse f re-evaluated from the restricted u at coarse node times
     f0 = one(lambda c: c.target == f'{G}.f[0]', '')
     fn_ = one(lambda c: c.target == f'{G}.f[i1]', '')
@@ -209,6 +215,9 @@ def _prolong_checks(R, repo, rel, cn, meth, exact=True):
             # every fine node is updated: the outer loop runs over 1..MF
             ok = ok and all(c.loops and repr(c.loops[0]) == f'i1=1..{MF}' for c in rs['contribs'])
         R.check(ok, f'{cn}.{meth} :: fine {k} is updated by += (full row of Pcoll times the prolonged correction)', w, f'F.{k}[n] += sum_m Pcoll[n,m] * P(G.{k}[m] - G.{k}old[m])', [c.describe()[:160] for c in tgt])
+        if exact and ok:
+            condp = [c.describe()[:140] for c in tgt if [g for g in c.guards if g != f'{GG}.status.unlocked']]
+            R.check(not condp, f'{cn}.{meth} :: the update of fine {k} is unconditional', w, 'no guard besides the lock test', condp)
     ev = [c for c in C if c.rhs and c.rhs.startswith(f'{FF}.prob.eval_f(')]
     if meth == 'prolong':
         upd = [i for i, c in enumerate(C) if re.match(rf'{re.escape(FF)}\.u\[', c.target) and c.op == '+=']
